@@ -128,6 +128,11 @@ theorem C19_face (named : List Char → Option RGBA) (f : Face) (h : Canonical f
     simp only [faceFold, faceStep_empty]
   · rw [splitOn_joinComma _ hne hcomma]; exact hfoldAll
 
+/-- in particular for every face whose attributes were built through the public API -/
+theorem C19_face_reachable (named : List Char → Option RGBA) (f : Face) (h : Reachable f.attrs) :
+    parseFace named (printFace f) = .ok f :=
+  C19_face named f (C19_attrs_canonical f.attrs h)
+
 /-- the hypothesis of `C19_face` holds e.g. for a translucent foreground, an opaque background, curly
     underline + bold + strike; the printed text is `fg=#0a141e80,bg=#ffffff,underline_curly,bold,strike` -/
 example : Canonical (pack 3 17) ∧
@@ -204,8 +209,8 @@ example : ([⟨1,1,1,1⟩, ⟨2,2,2,2⟩, ⟨3,3,3,3⟩, ⟨4,4,4,4⟩, ⟨5,5,5
     every buffer schedule the visitor never panics: no multiplication, addition or index is out of range; and
     under a sufficient schedule it returns a value or an error. -/
 theorem C19_image_total (sched : Nat → List Nat) (doc : List Entry) :
-    visit sched doc ≠ .panic ∧ (Sufficient sched → ∃ r, visit sched doc = r ∧ (r = .err ∨ ∃ img, r = .ok img)) :=
-  ⟨visit_ne_panic sched doc, fun hs => ⟨_, rfl, visit_ok_or_err sched hs doc⟩⟩
+    visit sched doc ≠ .panic ∧ (Sufficient sched → visit sched doc = .err ∨ ∃ img, visit sched doc = .ok img) :=
+  ⟨visit_ne_panic sched doc, fun hs => visit_ok_or_err sched hs doc⟩
 
 /-- `defaultSched` (what the driver uses) is sufficient, so the second half is not vacuous -/
 example : Sufficient defaultSched := defaultSched_sufficient
